@@ -232,7 +232,7 @@ class Unsupported(Exception):
     pass
 
 
-def encode_euf(lits, arrays=False):
+def encode_euf(lits, arrays=False, splits=0):
     """lits: list of (atom, pol) of a clause.  Returns the E-query line (CC.euf_clause_check); with arrays=True the
     A-query line (CC.arr_clause_check) over a DAG that also contains select(s, j), select(a, j) for every store term
     s = store(a, i, e) and every index term j of the clause (extra nodes are harmless: they only have to be consistent).
@@ -311,6 +311,17 @@ def encode_euf(lits, arrays=False):
                 node(["select", st, j])
                 node(["select", st[1], j])
         head = ["A", str(sym("select/2")), str(sym("store/3"))]
+        if splits:
+            # case analysis on (store index, other index) pairs, store indices first; the checker tries them in order
+            sidx = [node(st[2]) for st in stores]
+            allidx = [node(j) for j in seen_i]
+            pairs = []
+            for a_ in dict.fromkeys(sidx):
+                for b_ in allidx:
+                    if a_ != b_ and (b_, a_) not in pairs and (a_, b_) not in pairs:
+                        pairs.append((a_, b_))
+            pairs = pairs[:splits]
+            head = ["S", str(sym("select/2")), str(sym("store/3")), str(len(pairs))] + [str(x) for p_ in pairs for x in p_]
     parts = head + [str(len(nodes))]
     for f, ch in nodes:
         parts += [str(f), str(len(ch))] + [str(c) for c in ch]
